@@ -17,7 +17,17 @@ def corrupt(rng, text, which):
     i = rng.choice(data)
     f = lines[i].split("\t")
     kind = rng.choice(["dropcol", "badstrand", "badcoord", "swapcoord", "extracol", "blankline", "gapfirst",
-                       "comment", "trailtab", "emptyname", "dup"])
+                       "comment", "trailtab", "emptyname", "dup", "gaptrunc", "gaptrunc"])
+    if kind == "gaptrunc":
+        # a gap line cut short (its length or a later column missing): refused, never given a default
+        gaps = [j for j in data if (lines[j].startswith("GAP\t") if which == "tpf" else
+                                    (len(lines[j].split("\t")) > 4 and lines[j].split("\t")[4] in ("U", "N")))]
+        if not gaps:
+            kind = "dropcol"
+        else:
+            i = rng.choice(gaps)
+            f = lines[i].split("\t")
+            f = f[: rng.randint(1 if which == "tpf" else 5, len(f) - 1)]
     if kind == "dropcol":
         f.pop(rng.randrange(len(f)))
     elif kind == "badstrand":
